@@ -112,10 +112,13 @@ Definition m_emplace_from (src : M N) : M unit :=
   set_flag This true.
 Definition m_emplace (v : N) : M unit := m_emplace_from (ret v).
 
-(* void default_construct_storage_if_needed() *)
+(* void default_construct_storage_if_needed()
+   repaired: if (!has_value()) { new (storage.data()) T(); hasValue = true; }   - the flag is raised as soon as the T()
+   exists, so that a payload assignment that throws afterwards leaves an ENGAGED wrapper (before the repair the flag was
+   only set by the caller after the assignment: Exc.old_helper_table); the callers' own hasValue = true is now redundant *)
 Definition m_default_construct_storage_if_needed : M unit :=
   b <- has_value This ;;
-  if b then ret tt else placement_new This 0 true.
+  if b then ret tt else (placement_new This 0 true ;; set_flag This true).
 
 (* the common body of all assignment operators:
    default_construct_storage_if_needed(); value() = <src>; hasValue = true; *)
